@@ -316,6 +316,13 @@ type ReqSpec struct {
 	Vals      [][][]string `json:"vals"`
 	Multipart bool         `json:"multipart,omitempty"`
 	CT        int          `json:"ct,omitempty"` // spelling of the JSON media type: 0 application/json, 1 Application/JSON, 2 application/JSON; charset=utf-8
+	// FormCT: spelling of the form media types: 0 lower case, 1 "Application/X-WWW-Form-Urlencoded" / "Multipart/Form-Data; boundary=B", 2 "multipart/form-data; Boundary=B"
+	FormCT int `json:"form_ct,omitempty"`
+	// KeyUpper: the JSON member names are written in upper case (JSON decoding matches member names to fields ignoring case)
+	KeyUpper bool `json:"key_upper,omitempty"`
+	// NoCL: the request object is put together with SetBody / SetRequestURI instead of being read from the wire, so the
+	// header records no Content-Length (as for a chunked body that was streamed)
+	NoCL bool `json:"no_cl,omitempty"`
 }
 
 var jsonCT = []string{"application/json", "Application/JSON", "application/JSON; charset=utf-8"}
@@ -417,7 +424,11 @@ func realize(t TypeSpec, r ReqSpec) realReq {
 			if kinds[f.Kind].shape == shSlice {
 				lit = "[" + strings.Join(v[srcJSON], ",") + "]"
 			}
-			js = append(js, strconv.Quote(key)+":"+lit)
+			jk := key
+			if r.KeyUpper {
+				jk = strings.ToUpper(key)
+			}
+			js = append(js, strconv.Quote(jk)+":"+lit)
 		}
 	}
 	if form != nil && js != nil {
@@ -436,10 +447,10 @@ func realize(t TypeSpec, r ReqSpec) realReq {
 		w.WriteString("Content-Type: " + jsonCT[r.CT] + "\r\n")
 	case form != nil && r.Multipart:
 		body = mpart.String() + "--B--\r\n"
-		w.WriteString("Content-Type: multipart/form-data; boundary=B\r\n")
+		w.WriteString("Content-Type: " + []string{"multipart/form-data; boundary=B", "Multipart/Form-Data; boundary=B", "multipart/form-data; Boundary=B"}[r.FormCT] + "\r\n")
 	case form != nil:
 		body = strings.Join(form, "&")
-		w.WriteString("Content-Type: application/x-www-form-urlencoded\r\n")
+		w.WriteString("Content-Type: " + []string{"application/x-www-form-urlencoded", "Application/X-WWW-Form-Urlencoded", "application/x-www-form-urlencoded"}[r.FormCT] + "\r\n")
 	}
 	if cookie != nil {
 		w.WriteString("Cookie: " + strings.Join(cookie, "; ") + "\r\n")
@@ -452,6 +463,19 @@ func realize(t TypeSpec, r ReqSpec) realReq {
 	req := &protocol.Request{}
 	if err := h1req.Read(req, mock.NewZeroCopyReader(wire)); err != nil {
 		panic(fmt.Sprintf("c15: harness request does not parse: %v\n%q", err, wire))
+	}
+	if r.NoCL {
+		// the same request as an object assembled by hand: headers copied, body set, no Content-Length recorded
+		d := &protocol.Request{}
+		d.SetRequestURI(target)
+		d.Header.SetMethod("POST")
+		req.Header.VisitAll(func(k, v []byte) {
+			if !strings.EqualFold(string(k), "Content-Length") {
+				d.Header.Add(string(k), string(v))
+			}
+		})
+		d.SetBody(append([]byte(nil), req.Body()...))
+		req = d
 	}
 	return realReq{req: req, params: params, wire: wire}
 }
@@ -875,6 +899,15 @@ func singleReqs(k *kindInfo, rots []int, multipart bool) []ReqSpec {
 		if m&(1<<srcJSON) != 0 {
 			for ct := 1; ct < len(jsonCT); ct++ {
 				out = append(out, ReqSpec{Vals: [][][]string{fieldVals(k, m, 0, 0, -1, 0)}, CT: ct})
+			}
+		}
+		if m&(1<<srcJSON) != 0 {
+			out = append(out, ReqSpec{Vals: [][][]string{fieldVals(k, m, 0, 0, -1, 0)}, KeyUpper: true}, ReqSpec{Vals: [][][]string{fieldVals(k, m, 0, 0, -1, 0)}, NoCL: true})
+		}
+		if m&(1<<srcForm) != 0 {
+			out = append(out, ReqSpec{Vals: [][][]string{fieldVals(k, m, 0, 0, -1, 0)}, FormCT: 1})
+			if multipart {
+				out = append(out, ReqSpec{Vals: [][][]string{fieldVals(k, m, 0, 0, -1, 0)}, Multipart: true, FormCT: 1}, ReqSpec{Vals: [][][]string{fieldVals(k, m, 0, 0, -1, 0)}, Multipart: true, FormCT: 2})
 			}
 		}
 		if multipart && m&(1<<srcForm) != 0 {
